@@ -1422,3 +1422,81 @@ def rule_values_by_value(ctx: Ctx, rep: Report, rule: str, module_prefixes: tupl
                    f"`{norm(c)}` compares two values by identity: an equal value that is another object -- a curve built from the same parameters, a copy -- takes the other branch")
     rep.ob(rule, "scanned", True, "btclib:1", f"{n} functions in {module_prefixes}")
     rep.floor(rule, 2)
+
+
+_TRANSPOSED_SAMPLE = """
+@dataclass
+class K:
+    a: int
+    b: int
+    c: int
+
+    @classmethod
+    def from_dict(cls, dict_):
+        return cls(dict_["a"], dict_["c"], dict_["b"])
+"""
+
+
+def _ctor_params(cl: ast.ClassDef) -> list[str] | None:
+    """The positional parameters of the class's constructor: its own __init__'s,
+    or, for a plain dataclass without bases, its fields in order."""
+    for s_ in cl.body:
+        if isinstance(s_, ast.FunctionDef) and s_.name == "__init__":
+            return [a.arg for a in s_.args.posonlyargs + s_.args.args][1:]
+    if cl.bases or not any("dataclass" in ast.unparse(d) for d in cl.decorator_list):
+        return None
+    out = []
+    for s_ in cl.body:
+        if isinstance(s_, ast.AnnAssign) and isinstance(s_.target, ast.Name) and "ClassVar" not in ast.unparse(s_.annotation):
+            if isinstance(s_.value, ast.Call) and any(k.arg == "init" and isinstance(k.value, ast.Constant) and k.value.value is False for k in s_.value.keywords):
+                continue
+            out.append(s_.target.id)
+    return out
+
+
+def transposed_ctor_args(cl: ast.ClassDef) -> list[tuple[ast.Call, int, str, str]]:
+    params = _ctor_params(cl)
+    out = []
+    if not params:
+        return out
+    for fn in cl.body:
+        if not isinstance(fn, ast.FunctionDef):
+            continue
+        for c in ast.walk(fn):
+            if not (isinstance(c, ast.Call) and isinstance(c.func, ast.Name) and c.func.id in ("cls", cl.name)) or any(isinstance(a, ast.Starred) for a in c.args):
+                continue
+            for i, a in enumerate(c.args[:len(params)]):
+                k = None
+                if isinstance(a, ast.Subscript) and isinstance(a.slice, ast.Constant) and isinstance(a.slice.value, str):
+                    k = a.slice.value
+                elif isinstance(a, ast.Call) and isinstance(a.func, ast.Attribute) and a.func.attr == "get" and a.args and isinstance(a.args[0], ast.Constant) and isinstance(a.args[0].value, str):
+                    k = a.args[0].value
+                if k is not None and k != params[i] and k in params:
+                    out.append((c, i, k, params[i]))
+    return out
+
+
+def rule_ctor_args_in_order(ctx: Ctx, rep: Report, rule: str, module_prefixes: tuple[str, ...], floor: int) -> None:
+    """`from_dict` hands the entries of the dict to the constructor by position:
+    the entry named after one constructor parameter is never passed in the
+    place of another -- two fields of one type (two 32-byte values, two
+    lists) swap silently, and to_dict/from_dict is no longer the identity."""
+    sample = ast.parse(_TRANSPOSED_SAMPLE).body[0]
+    rep.ob(rule, "selftest:sample", len(transposed_ctor_args(sample)) == 2, "rules/sigcommon.py:1", "the detector fires on its own sample")
+    n = 0
+    for q, ci in sorted(ctx.prog.classes.items()):
+        if not any(q.startswith(p_) for p_ in module_prefixes):
+            continue
+        params = _ctor_params(ci.node)
+        if not params:
+            continue
+        bad = transposed_ctor_args(ci.node)
+        calls = [c for fn in ci.node.body if isinstance(fn, ast.FunctionDef) for c in ast.walk(fn)
+                 if isinstance(c, ast.Call) and isinstance(c.func, ast.Name) and c.func.id in ("cls", ci.node.name) and len(c.args) >= 2]
+        for c in calls:
+            mine = [b for b in bad if b[0] is c]
+            n += 1
+            rep.ob(rule, f"{q}:L{c.lineno - ci.node.lineno}", not mine, f"{ci.module.relpath}:{c.lineno}",
+                   "each named entry is in its own parameter's place" if not mine else
+                   "; ".join(f"argument {i + 1} is the entry `{k}` where the constructor takes `{p_}`" for _, i, k, p_ in mine))
+    rep.floor(rule, floor)
